@@ -499,6 +499,12 @@ fn run(ctx: &mut Ctx) {
         "printer option sets with Emacs bytes but R6RS strings (run without byte vectors)",
         no_bytes_sets,
     );
+    for b in &bat {
+        for r in check_constructors(b) {
+            ctx.observe("constructors", r);
+        }
+    }
+    ctx.flush_failures();
     ctx.exhaustive.push("all 576 printer option sets".into());
     if tier == Tier::Thorough {
         ctx.exhaustive
@@ -507,7 +513,40 @@ fn run(ctx: &mut Ctx) {
     ctx.required_classes = vec!["pair:elisp", "fold:non-identity", "kind:bytes", "kind:keyword", "kind:vector", "kind:char"];
 }
 
-fn replay(_sub: &str, case: &Json) -> Option<CaseResult> {
+/// The library's own printer constructors are the sets their documentation
+/// describes (every pair of the main run is built field by field).
+fn check_constructors(b: &MV) -> Vec<CaseResult> {
+    let v = b.to_value();
+    let pairs: [(&str, lexpr::print::Options, POpt); 2] = [
+        ("print::Options::default()", lexpr::print::Options::default(), POpt::default_set()),
+        ("print::Options::elisp()", lexpr::print::Options::elisp(), POpt::elisp()),
+    ];
+    let mut out = Vec::new();
+    for (name, opts, p) in pairs {
+        if b.any(&|m| matches!(m, MV::Bytes(_))) && !bytes_allowed(&p) {
+            continue;
+        }
+        let got = lexpr::to_string_custom(&v, opts).map_err(|e| e.to_string());
+        let want = lexpr::to_string_custom(&v, p.to_lexpr()).map_err(|e| e.to_string());
+        let plain = if name.contains("default") { Some(lexpr::to_string(&v).map_err(|e| e.to_string())) } else { None };
+        out.push(if got != want || plain.as_ref().map_or(false, |t| *t != want) {
+            Err(Failure::new(
+                format!("C02 constructor={}", name),
+                format!("{} prints {:?}, the documented equivalent built field by field prints {:?} (to_string: {:?})", name, got, want, plain),
+                json!({"p": p.index(), "q": 0, "value": b}),
+            ))
+        } else {
+            Ok(Eval::new(false, 0).class("constructors:checked"))
+        });
+    }
+    out
+}
+
+fn replay(sub: &str, case: &Json) -> Option<CaseResult> {
+    if sub == "constructors" {
+        let mv: MV = serde_json::from_value(case.get("value")?.clone()).ok()?;
+        return check_constructors(&mv).into_iter().find(|r| r.is_err()).or_else(|| Some(Ok(Eval::new(false, 0))));
+    }
     let pi = case.get("p")?.as_u64()? as usize;
     let qi = case.get("q")?.as_u64()? as usize;
     let mv: MV = serde_json::from_value(case.get("value")?.clone()).ok()?;
